@@ -53,8 +53,11 @@ func c08SeqParts() []sup.Part {
 
 func c09SeqParts() []sup.Part {
 	ex := kvOpts{
-		Sim:       kv.SimOptions{JudgeEvents: true, DumpEachStep: true},
-		Cfg:       defaultCfg(2, 1, 1, 1, true),
+		Sim: kv.SimOptions{JudgeEvents: true, DumpEachStep: true},
+		Cfg: func(r *rng.R, local int) kv.Config {
+			// (in a third of the scenarios a KeysOnly live feed listens as well, so that KeysOnly backfills have a live twin to be compared with)
+			return kv.Config{Disk: local%2 == 1, Buckets: 1, Handles: 1, Colls: 2, FeedsPer: 1, Marker: true, KeysOnly: (local/2)%3 == 2}
+		},
 		Variants:  kv.Variants,
 		Setups:    kv.Setups,
 		FollowUps: kv.FollowUps,
